@@ -7,10 +7,10 @@ from ..ops import Eq, And, Or, Not, Implies, cond, TRUE
 from .. import spec, sysh, shapes, snap
 from ..shapes import S, N
 from ..envstubs import memory_files
-from .c18 import Battery, Boom, SolverBoom, run_batt, PROBES
+from .c18 import Battery, Boom, Interrupt, SolverBoom, run_batt, PROBES
 
 
-def e_restore(ctx, shape, K, raise_at=None, solver_fail_at=None):
+def e_restore(ctx, shape, K, raise_at=None, solver_fail_at=None, abort=False):
     """After batt_life returns OR raises (callback failure at the k-th call, solver failure at the k-th solve) the
     battery's voltage and resistance are the original ones and nothing else changed."""
     sysobj, info, durations = sysh.build_system(ctx, shape)
@@ -35,12 +35,15 @@ def e_restore(ctx, shape, K, raise_at=None, solver_fail_at=None):
         imax = 0.0
         for ph in (list(durations) or [""]):
             imax = Max(imax, sysh.load_val(info, shape["nodes"][1]["name"], ph))
-    batt = Battery(ctx, K, raise_at=raise_at, rs_zero=len(shape["nodes"]) > 2, imax=imax, cutoff=cutoff)
+    batt = Battery(ctx, K, raise_at=raise_at, rs_zero=len(shape["nodes"]) > 2, imax=imax, cutoff=cutoff,
+                   exc=Interrupt if abort else Boom)
     outcome = "returned"
     try:
         run_batt(ctx, sysobj, shape, battery, batt, cutoff, solver_fail_at=solver_fail_at)
     except Boom:
         outcome = "callback-raised"
+    except Interrupt:  # "raises" includes aborts that are not Exceptions (KeyboardInterrupt, SystemExit)
+        outcome = "callback-aborted"
     except SolverBoom:
         outcome = "solver-raised"
     ctx.cover(outcome)
@@ -167,6 +170,9 @@ def instances(tier):
         for ra in ["probe"] + list(range(1, K + 1)):
             out.append(Instance("C17", "c17:e_restore", dict(shape=sh, K=K, raise_at=ra), name="R/%s/callback-raises@%s" % (sid, ra), uf=True,
                                 cover=["callback-raised"], weight=10))
+        for ra in (["probe", 1, K] if sid == "src-iload" else [1]):
+            out.append(Instance("C17", "c17:e_restore", dict(shape=sh, K=K, raise_at=ra, abort=True), name="R/%s/callback-aborts@%s" % (sid, ra),
+                                uf=True, cover=["callback-aborted"], weight=10))
         for sf in range(1, K + 1):
             out.append(Instance("C17", "c17:e_restore", dict(shape=sh, K=K, solver_fail_at=sf), name="R/%s/solver-fails@%d" % (sid, sf), uf=True,
                                 cover=["solver-raised"], weight=10))
